@@ -160,7 +160,12 @@ fn time_claim(pl: &Option<J>, name: &str) -> String {
         None => "{\"k\":\"absent\",\"v\":0}".to_string(),
         Some(J::Num(t)) => match t.parse::<i128>() {
             Ok(i) => format!("{{\"k\":\"int\",\"v\":{}}}", (i - EPOCH_BASE).clamp(-2_000_000_000, 2_000_000_000)),
-            Err(_) => "{\"k\":\"float\",\"v\":0}".to_string(),
+            // a fractional / exponent-form instant: its integer part (the true value lies in [v, v + 1)); beyond the range of
+            // a 64-bit counter nothing is asserted
+            Err(_) => match t.parse::<f64>() {
+                Ok(f) if f.is_finite() && f.abs() < 9.0e18 => format!("{{\"k\":\"float\",\"v\":{}}}", (f.floor() as i128 - EPOCH_BASE).clamp(-2_000_000_000, 2_000_000_000)),
+                _ => "{\"k\":\"floatbig\",\"v\":0}".to_string(),
+            },
         },
         Some(_) => "{\"k\":\"nan\",\"v\":0}".to_string(),
     }
